@@ -193,12 +193,16 @@ def handleC18 (j : Json) : Except String Verdict := do
     if outcome != "ok" then
       return { agree := false, spec := false, model := Json.str "ok", tags := ["impl-raised"] ++ mtags,
                why := "implementation raised on a legal spec: " ++ outcome }
+    -- value kinds other than int are abstracted by the harness to 0 (= default) / 1: it then says so
+    let dflt := fIntD impl "dflt" dflt
     -- what the implementation filled in (observed once, after construction)
     let filledJ ← field impl "filled"
+    -- anything the implementation produced that the model cannot read is a failure, never a skipped case
     let some rootImpl ← parseDict (← field filledJ "root")
-      | return { agree := true, spec := true, tags := ["OUT_OF_MODEL"] }
+      | return { agree := false, spec := false, tags := mtags, why := "spec fails on: filled-defaults" }
     let ranksImplO ← (← fArr filledJ "ranks").mapM parseDict
-    if ranksImplO.any (·.isNone) then return { agree := true, spec := true, tags := ["OUT_OF_MODEL"] }
+    if ranksImplO.any (·.isNone) then
+      return { agree := false, spec := false, tags := mtags, why := "spec fails on: filled-defaults" }
     let ranksImpl : List SpecDict := ranksImplO.map (·.getD [])
     let filledAgree := sameDict specRootKeys rootF rootImpl && ranksImpl.length == ranksF.length &&
       (ranksF.zip ranksImpl).all (fun ab => sameDict specRankKeys ab.1 ab.2)
@@ -220,7 +224,9 @@ def handleC18 (j : Json) : Except String Verdict := do
     let mut k := 0
     for ph in phases do
       let r ← evalPhase nR D dflt ranksF (fpGetRoot rootF) points fmtOmitted prev ph
-      if r.oom then return { agree := true, spec := true, tags := ["OUT_OF_MODEL"] }
+      if r.oom then
+        return { agree := false, spec := false, tags := tags ++ ["state-unreadable"],
+                 why := "spec fails on: pre:state" }
       agree := agree && r.agree
       failed := failed ++ r.failed.map (fun f => if k == 0 then f else s!"{f}@{k}")
       tags := tags ++ r.tags ++ (if k > 0 then [s!"phase:{k}"] else [])
